@@ -210,25 +210,25 @@ std::string handle(const std::string& op, Args& a)
 	{
 		auto l = a.dbls();
 		a.end();
-		return run([&](Out& o) { o << Arithmetic_Mean(l); });
+		return run_forked([&](Out& o) { o << Arithmetic_Mean(l); });   // too short a list stops with a diagnostic
 	}
 	if(op == "c19.variance")
 	{
 		auto l = a.dbls();
 		a.end();
-		return run([&](Out& o) { o << Variance(l); });
+		return run_forked([&](Out& o) { o << Variance(l); });   // too short a list stops with a diagnostic
 	}
 	if(op == "c19.stddev")
 	{
 		auto l = a.dbls();
 		a.end();
-		return run([&](Out& o) { o << Standard_Deviation(l); });
+		return run_forked([&](Out& o) { o << Standard_Deviation(l); });   // too short a list stops with a diagnostic
 	}
 	if(op == "c19.median")
 	{
 		auto l = a.dbls();
 		a.end();
-		return run([&](Out& o) { o << Median(l); });
+		return run_forked([&](Out& o) { o << Median(l); });   // too short a list stops with a diagnostic
 	}
 	if(op == "c19.wavg")
 	{
@@ -240,7 +240,7 @@ std::string handle(const std::string& op, Args& a)
 			d.push_back(DataPoint(v, w));
 		}
 		a.end();
-		return run([&](Out& o) { auto r = Weighted_Average(d); o << r[0] << r[1]; });
+		return run_forked([&](Out& o) { auto r = Weighted_Average(d); o << r[0] << r[1]; });
 	}
 	if(op == "c19.dpcmp")	// DataPoint ordering operators
 	{
